@@ -81,6 +81,8 @@ TQuiesce == /\ IsEvent("quiesce")
             /\ Expect(~isX \/ \A c \in Conns : conn[c].owner \in {"none", "new"}, "connection-not-handed-over")
             /\ UNCHANGED <<vars, isX, told>>
 
-TraceNext == TRun \/ TConnect \/ TPhase \/ TStep \/ TDone \/ TSignal \/ TReq \/ TGoneAway \/ TExit \/ TQuiesce
+TAbandon == IsEvent("abandon") /\ UNCHANGED <<vars, isX, told>>
+
+TraceNext == TAbandon \/ TRun \/ TConnect \/ TPhase \/ TStep \/ TDone \/ TSignal \/ TReq \/ TGoneAway \/ TExit \/ TQuiesce
 TraceSpec == TraceInit /\ [][TraceNext]_tvars
 ====
